@@ -65,6 +65,9 @@ type val struct {
 	clo *closure
 	tup []val
 	it  *iterState // result of ssa.Range
+	// interface value made from a value of statically known type (ssa.MakeInterface)
+	dynT types.Type
+	dynV *val
 }
 
 type iterState struct {
@@ -118,6 +121,7 @@ type fctx struct {
 	ifaceSeen map[string]types.Type
 	fnDecr0 []string // the function's decreases measure at entry
 	modeNoAssigns bool
+	noRecCheck    bool
 }
 
 func (c *fctx) fresh(prefix, sort string) string {
